@@ -13,5 +13,6 @@ for cfg in ("default", "explanations", "checks", "checks_explanations"):
     tab = C.must_call_table(crate)
     for k, v in tab.items():
         out.setdefault(cfg, {})[k] = v
+    out["loops:" + cfg] = C.loop_must_call_table(crate)
 json.dump(out, open("/verif/mustcall.json", "w"), indent=0, sort_keys=True)
 print({k: len(v) for k, v in out.items()})
